@@ -10,24 +10,24 @@ sys.path.insert(0, HERE)
 sys.dont_write_bytecode = True
 
 TECH = {
-    "C01": "def-use + call-binding + CFG exhaustiveness over Reader.read/__init__/__getitem__",
-    "C02": "CFG dominance / ordering of producer-publish-unlink, dead-store dataflow, who-may-delete table",
-    "C03": "polynomial tiling identity of the window writer, rounding-provenance dataflow, sibling scatter agreement, key symmetry",
-    "C04": "CFG dominance of deletion by verification, typestate of check_completed, guard tables, unlink tolerance",
-    "C05": "call-binding forwarding completeness, ordering (shift before spatial filter), sign normal form, sibling agreement",
-    "C06": "polynomial tiling/seek identities of the batch writer, taint dataflow of sync columns, fan-out binding",
-    "C07": "alias/mutation dataflow, transform-length rule, phase-sign normal form in fshift",
-    "C08": "joint-permutation shape + ordering, lexsort key model, rational grid-inverse identity, generation table exhaustiveness",
-    "C09": "sibling agreement of ap/lf gain formulas (normal forms), reader/writer token agreement, value tables",
-    "C10": "symbolic bit-layout interpretation of split_sync (permutation), edge-index def-use in fronts/rises/falls",
-    "C11": "rounding-provenance dataflow of the frame count, CFG ordering of metadata rewrite before memmap",
-    "C12": "polynomial tiling identity in LF samples with divisibility facts, sibling decimation agreement, metadata def-use",
-    "C13": "call-binding forwarding, padding-sentinel domain rule, offset normal forms, row-agreement def-use",
-    "C14": "index-bound rule, axis-discipline scan, homogeneity-degree dataflow, tuple-slot agreement",
-    "C15": "store-target def-use, CFG ordering of zeroing/threshold/normalisation",
-    "C16": "comparator structure, backward slice of the mute gain, range rule, call-site column agreement",
-    "C17": "polynomial transfer function of the window generator, partition identity, count formula, slice-bound rule",
-    "C18": "transform-length rule, parity-split crop identities, filter algebra, half-spectrum length identities",
+    "C01": "def-use + call-binding + CFG exhaustiveness over Reader.read/__init__/__getitem__ (flow-sensitive raw-sample locals); conversion-vector layout by abstract interpretation (segment vectors over metadata counts)",
+    "C02": "CFG dominance / ordering of producer-publish-unlink, dead-store dataflow, who-may-delete table, modular (stride-grid) normal forms of piecewise raw reads",
+    "C03": "polynomial tiling identity of the window writer, rounding-provenance dataflow, sibling scatter agreement, key symmetry, writer/parser agreement of the channel-subset string, split / group-by idiom models, window-state coherence (loop-carried dataflow)",
+    "C04": "CFG dominance of deletion by verification, typestate over an abstract verification state (flag / pending set / None), guard entailment, unlink tolerance",
+    "C05": "call-binding forwarding completeness, group-by idiom model for per-collection rows, ordering (shift before spatial filter), sign normal form, finite-domain label sets, sibling agreement",
+    "C06": "polynomial tiling/seek identities of the batch writer, taint / view-provenance dataflow of sync columns, fan-out binding",
+    "C07": "alias/mutation dataflow, transform-length rule, phase-sign normal form and impulse provenance in fshift, rounding-kind agreement of a whole/fraction shift split",
+    "C08": "joint-permutation shape + ordering (ADC attributes before any restriction), lexsort key model, rational grid-inverse identity, generation table exhaustiveness, closed-form delay normal form",
+    "C09": "conversion-vector layout by abstract interpretation (segment vectors, all small count assignments), evaluated decision table of the max-int lookup with call-site guards, reader/writer token agreement, value tables",
+    "C10": "symbolic bit-layout interpretation of split_sync (permutation), edge-index def-use and shape-unwrap rule in fronts/rises/falls",
+    "C11": "rounding-provenance dataflow of the frame count, CFG ordering of metadata rewrite before memmap, dependence of the rewrite's path condition on unrelated options (truth-table)",
+    "C12": "polynomial tiling identity in LF samples with divisibility facts, sibling decimation agreement, buffer-identity / disjoint-range analysis, window-state coherence, metadata def-use",
+    "C13": "call-binding forwarding, padding-sentinel domain rule, offset normal forms, row-agreement def-use, linear normal form of the admissibility test, signedness rule, sorted-search grouping model",
+    "C14": "index-bound rule, axis-discipline scan, homogeneity-degree dataflow, relation-set abstract evaluation of pre/post masks, narrow-accumulator rule",
+    "C15": "finite-domain (label-set) evaluation of row and donor selectors, CFG ordering of zeroing/threshold/normalisation for loop and matrix forms",
+    "C16": "comparator structure (direct and block-accumulated), backward slice of the mute gain, range rule, call-site column agreement, stale scratch-buffer dataflow",
+    "C17": "polynomial transfer function of the window generator, partition identity, count formula, interval-event model of the splicing amplitudes evaluated per window class",
+    "C18": "transform-length rule, parity-split crop / take / arange identities, un-padding bound versus transform length, filter algebra, half-spectrum length identities",
 }
 
 NA = {
@@ -78,7 +78,7 @@ def main():
             na.append({"property_id": pid, "reason": "check under construction in this session (static rules designed in DESIGN.md section 4, not yet registered)"})
     man = {
         "version": 1,
-        "setup_cmd": "python3-vt -c \"import sys; sys.path.insert(0, '/verif'); import sa.model, sa.cfg, sa.defuse, sa.algebra, sa.calls, sa.struct, sa.common, sa.report, sa.normalize, sa.guards, sa.roles, sa.role_table; assert len(sa.normalize.vocab().get('functions', [])) > 200; print('sa engine importable')\"",
+        "setup_cmd": "python3-vt -c \"import sys; sys.path.insert(0, '/verif'); import sa.model, sa.cfg, sa.defuse, sa.algebra, sa.calls, sa.struct, sa.common, sa.report, sa.normalize, sa.guards, sa.roles, sa.role_table, sa.regions, sa.segvec; assert len(sa.normalize.vocab().get('functions', [])) > 200; print('sa engine importable')\"",
         "hooks": {
             "guard": "IBL_NEUROPIXEL_VERIF",
             "enable": "none needed: the checks parse /repo's source and never build or run it; no hook commits exist",
@@ -92,7 +92,10 @@ def main():
             "serves_properties": [c["property_id"] for c in checks],
             "kind_free_text": "repository-specific static analyser: source model + resolver (E0), statement CFG with dominators/guards (E1), "
                               "reaching definitions (E2), polynomial normal forms + symbolic executor (E3), call binding (E5), structural "
-                              "agreement (E6), bit-layout interpreter (E7)",
+                              "agreement (E6), bit-layout interpreter (E7), segment-vector model of conversion vectors (E9, sa/segvec.py), "
+                              "interval-event model of assembled arrays (E13, sa/regions.py), finite-domain / group-by / scratch-buffer / buffer-identity "
+                              "analyses (sa/common.py), propositional guard entailment (sa/guards.py), normalisation towards the pinned vocabulary "
+                              "(sa/normalize.py) and role resolution (sa/roles.py)",
         }],
         "checks": checks,
         "not_applicable": na,
